@@ -34,7 +34,12 @@ var properties = []Property{
 		LevelText:  "A sound-by-construction inventory for the listed panic classes under the stated assumptions: every site in the region is an obligation; silence means each was discharged by an argument the checker re-derives on every run. It is not a termination proof and does not look inside dependencies.",
 		LevelNote:  "Trusted: go/ssa, CHA (quick) / VTA (thorough) call graph for the region, the guard algebra (dominating branch conditions, pure-accessor congruence, no intervening store check limited to the enumerated idioms), reviewed instances listed with re-verified fingerprints.",
 	},
-	 {ID: "C04"}, {ID: "C05"}, 
+	 
+	{ID: "C04", Title: "Tokenization is lossless: token values concatenate to the input",
+		Rules:     []string{"SCAN.balance", "SCAN.fallback", "PANIC.progress"},
+		Technique: "path-sensitive abstract interpretation of every tokenizer state over a symbolic scanner (consumed-character stack vs. builder contents)",
+	},
+	 {ID: "C05"}, 
 	{ID: "C06", Title: "Variant operators implement the arithmetic of the first operand's type",
 		Rules:     []string{"OPS.cell", "OPS.null", "OPS.convert", "OPS.override", "OPS.in", "PANIC.div", "PANIC.shift", "GRAM.emptycase", "CONV.cell", "CONV.tag"},
 		Technique: "normalised SSA expression trees per (operator × first-operand type) cell compared with the operator matrix of the statement; boolean cells and the Null policy folded into truth tables; dominating-guard check for division and shifts",
@@ -62,7 +67,12 @@ var properties = []Property{
 		LevelNote:  "Trusted: go/ssa; math/time/rand semantics. The denotation table is written from the statement and confirmed by reading.",
 	},
 	 {ID: "C09"}, {ID: "C10"},
-	{ID: "C11"}, {ID: "C12"}, {ID: "C13"}, {ID: "C14"}, {ID: "C15"}, {ID: "C16"}, {ID: "C17"}, {ID: "C18"}, {ID: "C19"}, {ID: "C20"},
+	{ID: "C11"}, 
+	{ID: "C12", Title: "Every token reports the line and column of its first character",
+		Rules:     []string{"POS.capture"},
+		Technique: "same abstract interpretation: where, relative to the first Read, each state samples Line/Column/PeekLine/PeekColumn",
+	},
+	 {ID: "C13"}, {ID: "C14"}, {ID: "C15"}, {ID: "C16"}, {ID: "C17"}, {ID: "C18"}, {ID: "C19"}, {ID: "C20"},
 }
 
 func init() {
